@@ -23,7 +23,7 @@ LEVEL_TEXT = ("Theorems for all member lists / statement lists: is_wildcard_expo
               "the same names to related targets given related imports (the induction step of the composition over a dependency order); an __all__ "
               "assembled from strings and other modules' __all__ in any mix expands to exactly CPython's list; Alias.members rebases every path under "
               "the alias. The faithful model of the real traversal (seen-sets, early return, pending expansions, KeyError skips) refutes the full "
-              "property in eight ways, each proved by computation on a witness that is replayed on the implementation (findings F1-F8). The model "
+              "property in ten ways, each proved by computation on a witness that is replayed on the implementation (findings F1-F10). The model "
               "is tied to the code by differential runs: model vs griffe.load vs a fresh interpreter on generated packages.")
 LEVEL_NOTE = ("Trusted: Coq kernel, extraction, the package->model abstraction in this file, CPython as authority. NOT proved: (1) the composition of "
               "the per-module theorems into `griffe_sched = py_import` for whole acyclic programs (the step is proved, the induction over the order "
@@ -35,19 +35,22 @@ LEVEL_NOTE = ("Trusted: Coq kernel, extraction, the package->model abstraction i
               "leaked an `a/b/*` pseudo-member skip (C), and names whose alias chain crosses a replaced alias member accept either target (F7).")
 MODEL = ("Model.C05_imports", "run_C05")
 COQ_TARGETS = ["Proofs/C05_imports.vo"]
-RULE = ("hand-written packages (one per rule of the anchored code) and the six finding witnesses; seeded random packages in two streams: flat "
-        "(package __init__ + 1-4 modules) and rich (1-3 modules, a sub-package with 1-2 modules, optionally a nested sub-package): a random "
-        "dependency order (each __init__ before, after or among its descendants), every module importing only from earlier ones with "
-        "from-import (absolute/relative, aliased), wildcard, `import a.b.c [as x]`, `from pkg import submodule [as x]`, 1-6 statements over 6 "
-        "names so that rebinding is frequent, __all__ = / += in list, tuple, +, starred and annotated forms placed anywhere, assembled from "
-        "other modules' __all__ through a module alias, a re-exported module alias or an imported __all__ name. A package counts when the "
-        "interpreter imports it identically under two submodule import orders without reading a partially initialised module; non-trivial = "
-        "has a wildcard import or an __all__; distinct by source text")
+RULE = ("hand-written packages (one per rule of the anchored code) and the ten finding witnesses; seeded random packages in three streams: flat "
+        "(package __init__ + 1-4 modules), rich (1-3 modules, a sub-package with 1-2 modules, optionally a nested sub-package) and cyclic (rich or "
+        "flat plus 1-2 imports pointing forward in the order; model-vs-implementation only). A random dependency order (each __init__ before, after "
+        "or among its descendants), every module importing only from earlier ones with from-import (absolute/relative, aliased), wildcard, "
+        "`import a.b.c [as x]`, `from pkg import submodule [as x]`, 1-6 statements over 6 names so that rebinding is frequent, __all__ = / += in "
+        "list, tuple, +, starred and annotated forms placed anywhere, assembled from other modules' __all__ through a module alias, a re-exported "
+        "module alias or an imported __all__ name. Submodule attachment order is read from the directory listing (os.walk), as the loader does. "
+        "A package counts for the direct comparison when the interpreter imports it identically under two submodule import orders without "
+        "reading a partially initialised module; non-trivial = has a wildcard import or an __all__; distinct by source text")
 TRUSTED = ["abstraction: harness renders the abstract package to files, records the first line of each statement, resolves relative imports to absolute "
            "module paths itself (not via Griffe) and lists submodules in sorted order",
            "oracle driver: imports the top package then every submodule with importlib in a fresh `python -I` process; a builtins.__import__ hook "
            "flags reads of modules whose __spec__._initializing is set"]
-ASSUMPTIONS = ["acyclic = no module's namespace is read while it is being initialised (checked dynamically in the interpreter); the theorems use a "
+ASSUMPTIONS = ["the names w<k>/a<k> used as sources of an __all__ are bound once, by the import written for that purpose (a later explicit rebinding makes "
+               "Griffe's flow-insensitive name resolution pick another module than CPython's statement-time lookup)",
+               "acyclic = no module's namespace is read while it is being initialised (checked dynamically in the interpreter); the theorems use a "
                "dependency order in which every import targets an earlier module",
                "names bound by statements are disjoint from submodule names (generator), so package attributes set by importing submodules never shadow members",
                "every defined object is a class or a function, so its identity is recoverable from __module__/__qualname__"]
@@ -1302,4 +1305,5 @@ def replay(ctx, data):
         outs = ctx.model(model_inputs(pkg, root))
         print("model  :", json.dumps(decode_load(outs[0]))[:3000])
     subprocess.run(["rm", "-rf", str(root)])
+    subprocess.run(["rmdir", str(ctx.scratch)], capture_output=True)      # the framework only removes the scratch directory of full runs
     return 0
